@@ -830,9 +830,10 @@ func (c *Ctx) Script(asserts []*Term, wantModel []*Term, logic string) string {
 	}
 	var sb strings.Builder
 	sb.WriteString("(set-option :produce-models true)\n")
-	if logic != "" {
-		fmt.Fprintf(&sb, "(set-logic %s)\n", logic)
+	if logic == "" {
+		logic = "ALL"
 	}
+	fmt.Fprintf(&sb, "(set-logic %s)\n", logic)
 	// declarations
 	funs := map[string]bool{}
 	var constList []*Term
